@@ -5,15 +5,19 @@
   transitions whose wall-clock set-backs do not overlap) and ALL instants before the last recorded
   transition — or any instant when the zone's `ttinfo_std` is the last transition's type
   (`LastStd`; the code answers `ttinfo_std` from the last transition on).
-  Fixed zones: all offsets, all instants.  Range zones (`tzrangebase`): `roundtrip_range_partial`.
+  Fixed zones: all offsets, all instants.  Range zones (`tzrangebase`): `roundtrip_range` (both
+  hemispheres, exact condition on the year lookups), `roundtrip_range_norule`.  `_tzinfo`
+  machinery (tzlocal, tzical): `roundtrip_generic` over abstract utcoffset/dst with a two-offset
+  cycle structure, instantiated for C17's iCalendar model in `roundtrip_tzical_cycle`.
 
   Full-strength statement that is NOT true of the code and therefore not proved:
     ∀ z : RangeZone, ∀ t, roundtrip z t
   excluded classes (known findings, shown failing on the implementation by the check):
-    D-C05r  saving < 0;   D-C04y  wall-clock year ≠ UTC year at a rule boundary.
+    D-C05r  saving < 0;   D-C04y  the wall-clock year's rule pair differs from the UTC year's.
 -/
 import DateutilVerif.Proofs.ZonesBuild
 import DateutilVerif.Proofs.RangeZone
+import DateutilVerif.Proofs.GenericICal
 
 namespace C04
 open TZ Spec
@@ -73,14 +77,16 @@ theorem offset_in_force_fixed (z : FixedZone) (t : Int) :
 
 /-! ### range zones -/
 
-/-- **roundtrip_range_partial.** `tzrangebase` with a positive saving, at an instant whose
-    wall-clock year (under either offset) is its UTC year: the round trip holds, in both
-    hemispheres, wherever the two yearly transitions lie.  (Negative saving: D-C05r; instants next
-    to a year boundary with a rule change there: D-C04y.) -/
-theorem roundtrip_range_partial (z : RangeZone) (t on off : Int)
+/-- **roundtrip_range.** `tzrangebase` with a positive saving, in either hemisphere (`on < off` or
+    `off ≤ on`), wherever the two yearly transitions lie: the round trip holds at every instant for
+    which the rule pair looked up by the wall-clock year (what `utcoffset` / `is_ambiguous` use)
+    is the pair `fromutc` looked up by the UTC year.  That is the exact condition: where the two
+    lookups differ is D-C04y's class.  (Negative saving: D-C05r.) -/
+theorem roundtrip_range (z : RangeZone) (t on off : Int)
     (hsav : 0 < z.saving) (hd : z.hasdst = true)
     (htr : z.transitions (yearOf t) = some (on, off))
-    (hy1 : yearOf (t + z.stdOff) = yearOf t) (hy2 : yearOf (t + z.dstOff) = yearOf t) :
+    (hy1 : z.transitions (yearOf (t + z.stdOff)) = some (on, off))
+    (hy2 : z.transitions (yearOf (t + z.dstOff)) = some (on, off)) :
     ∃ w, z.fromutc t = .ok w ∧ z.utcoffset w = .ok (w.wall - t) ∧ z.toUtc w = .ok t := by
   have hs : z.dstOff = z.stdOff + z.saving := by unfold RangeZone.saving; omega
   cases hdv : RangeZone.naiveIsdst t (on - z.stdOff, off - z.stdOff) with
@@ -88,7 +94,7 @@ theorem roundtrip_range_partial (z : RangeZone) (t on off : Int)
       have hf : z.fromutc t = .ok ⟨t + z.dstOff, false⟩ := by
         unfold RangeZone.fromutc; simp only [htr, hdv, if_true]
       have hoff : z.utcoffset ⟨t + z.dstOff, false⟩ = .ok z.dstOff := by
-        rw [RangeZone.utcoffset_eq z _ on off hd (by show z.transitions (yearOf (t + z.dstOff)) = _; rw [hy2]; exact htr)]
+        rw [RangeZone.utcoffset_eq z ⟨t + z.dstOff, false⟩ on off hd hy2]
         rw [RangeZone.naiveIsdst_iff] at hdv
         cases hn : RangeZone.naiveIsdst (t + z.dstOff) (on, off) with
         | true => simp
@@ -102,13 +108,13 @@ theorem roundtrip_range_partial (z : RangeZone) (t on off : Int)
       · unfold RangeZone.toUtc; rw [hoff]; show Except.ok _ = _; congr 1; show t + z.dstOff - z.dstOff = t; omega
   | false =>
       have hamb : z.isAmbiguous (t + z.stdOff) = .ok (decide (off ≤ t + z.stdOff) && decide (t + z.stdOff < off + z.saving)) := by
-        unfold RangeZone.isAmbiguous; simp only [hd, hy1, htr, Bool.not_true, Bool.false_eq_true, if_false]
+        unfold RangeZone.isAmbiguous; simp only [hd, hy1, Bool.not_true, Bool.false_eq_true, if_false]
       have hf : z.fromutc t = .ok ⟨t + z.stdOff, (decide (off ≤ t + z.stdOff) && decide (t + z.stdOff < off + z.saving))⟩ := by
         unfold RangeZone.fromutc
         simp only [htr, hdv, Bool.false_eq_true, if_false, hamb]
         rfl
       have hoff : z.utcoffset ⟨t + z.stdOff, (decide (off ≤ t + z.stdOff) && decide (t + z.stdOff < off + z.saving))⟩ = .ok z.stdOff := by
-        rw [RangeZone.utcoffset_eq z _ on off hd (by show z.transitions (yearOf (t + z.stdOff)) = _; rw [hy1]; exact htr)]
+        rw [RangeZone.utcoffset_eq z ⟨t + z.stdOff, (decide (off ≤ t + z.stdOff) && decide (t + z.stdOff < off + z.saving))⟩ on off hd hy1]
         rw [RangeZone.naiveIsdst_false_iff] at hdv
         have hn : RangeZone.naiveIsdst (t + z.stdOff) (on, off) = false := by
           rw [RangeZone.naiveIsdst_false_iff]; omega
@@ -118,11 +124,83 @@ theorem roundtrip_range_partial (z : RangeZone) (t on off : Int)
       · rw [hoff]; congr 1; show z.stdOff = t + z.stdOff - t; omega
       · unfold RangeZone.toUtc; rw [hoff]; show Except.ok _ = _; congr 1; show t + z.stdOff - z.stdOff = t; omega
 
+/-- **roundtrip_range_partial** (the earlier, coarser form): wall-clock year = UTC year. -/
+theorem roundtrip_range_partial (z : RangeZone) (t on off : Int)
+    (hsav : 0 < z.saving) (hd : z.hasdst = true)
+    (htr : z.transitions (yearOf t) = some (on, off))
+    (hy1 : yearOf (t + z.stdOff) = yearOf t) (hy2 : yearOf (t + z.dstOff) = yearOf t) :
+    ∃ w, z.fromutc t = .ok w ∧ z.utcoffset w = .ok (w.wall - t) ∧ z.toUtc w = .ok t :=
+  roundtrip_range z t on off hsav hd htr (by rw [hy1]; exact htr) (by rw [hy2]; exact htr)
+
+/-- no rule for the UTC year (`transitions` is `None`): standard time, when the wall-clock year
+    has no rule either -/
+theorem roundtrip_range_norule (z : RangeZone) (t : Int)
+    (htr : z.transitions (yearOf t) = none) (hy1 : z.transitions (yearOf (t + z.stdOff)) = none) :
+    ∃ w, z.fromutc t = .ok w ∧ z.utcoffset w = .ok (w.wall - t) ∧ z.toUtc w = .ok t := by
+  have h0 : z.utcoffset ⟨t, false⟩ = .ok z.stdOff := by
+    unfold RangeZone.utcoffset RangeZone.isdst
+    cases z.hasdst <;> simp [htr, bind, Except.bind, pure, Except.pure]
+  have h1 : z.utcoffset ⟨t + z.stdOff, false⟩ = .ok z.stdOff := by
+    unfold RangeZone.utcoffset RangeZone.isdst
+    cases z.hasdst <;> simp [hy1, bind, Except.bind, pure, Except.pure]
+  refine ⟨⟨t + z.stdOff, false⟩, ?_, ?_, ?_⟩
+  · unfold RangeZone.fromutc; simp only [htr, h0, bind, Except.bind, pure, Except.pure]
+  · rw [h1]; congr 1; show z.stdOff = t + z.stdOff - t; omega
+  · unfold RangeZone.toUtc; rw [h1]; show Except.ok _ = _; congr 1; show t + z.stdOff - z.stdOff = t; omega
+
+/-! ### `_tzinfo` machinery (tzlocal, tzical) -/
+
+/-- **roundtrip_generic.** `_tzinfo._fromutc/_fold_status/is_ambiguous` over abstract
+    `utcoffset/dst`: if these follow the two-offset interval semantics of a cycle on a wall window
+    (`GenericZone.CycleSem`: standard offset everywhere, daylight below `off` and, for fold=0, on the
+    repeated interval) and `is_ambiguous` is the repeated interval, then every instant whose
+    standard-time reading and its daylight reading lie in the window round-trips; fold=1 is set
+    exactly on the standard side of the repeated interval. -/
+theorem roundtrip_generic (g : GenericZone) (stdOff saving off lo hi t : Int) (hs : 0 < saving)
+    (hsem : GenericZone.CycleSem g stdOff saving off lo hi)
+    (hamb : ∀ w, lo ≤ w → w < hi → g.isAmbiguous w = (decide (off ≤ w) && decide (w < off + saving)))
+    (h0 : g.utcoffset ⟨t, false⟩ - g.dst ⟨t, false⟩ = stdOff)
+    (hx1 : lo ≤ t + stdOff) (hx2 : t + stdOff + saving < hi) :
+    g.utcoffset (g.fromutc t) = (g.fromutc t).wall - t ∧ g.toUtc (g.fromutc t) = t ∧
+    (g.fromutc t).wall = (if t + stdOff < off then t + stdOff + saving else t + stdOff) ∧
+    (g.fromutc t).fold = (decide (off ≤ t + stdOff) && decide (t + stdOff < off + saving)) :=
+  GenericZone.roundtrip g stdOff saving off lo hi t hs hsem hamb h0 hx1 hx2
+
+/-- for zones using the generic `is_ambiguous` (tzical) the ambiguity hypothesis follows -/
+theorem generic_ambiguous (g : GenericZone) (stdOff saving off lo hi : Int) (hs : 0 < saving)
+    (hno : g.ambiguousOverride = none) (hsem : GenericZone.CycleSem g stdOff saving off lo hi)
+    (w : Int) (h1 : lo ≤ w) (h2 : w < hi) :
+    g.isAmbiguous w = (decide (off ≤ w) && decide (w < off + saving)) :=
+  GenericZone.isAmbiguous_of_sem g stdOff saving off lo hi hs hno hsem w h1 h2
+
+/-- **roundtrip_tzical_cycle.** The iCalendar zone model of C17 (`ICal.generic`, STANDARD + DAYLIGHT
+    component) inside a cycle `[on, nextOn)`: its `fromutc` (the same `_tzinfo` machinery,
+    `ICal.Generic.fromutc_eq`) reports `utcoffset = wall − utc` and adds the daylight offset exactly
+    when the instant's standard reading is below `off`. -/
+theorem roundtrip_tzical_cycle (S D : List Int) (stdOff dstOff on off nextOn t : Int)
+    (hsav : stdOff < dstOff) (h1 : on < off) (h2 : off + (dstOff - stdOff) ≤ nextOn)
+    (H1 : ∀ x, on ≤ x → x < nextOn → ICal.lastLE D x = some on)
+    (H2 : ∀ x, on ≤ x → x < off + (dstOff - stdOff) → ∀ p, ICal.lastLE S x = some p → p < on)
+    (H3 : ∀ x, off + (dstOff - stdOff) ≤ x → x < nextOn + (dstOff - stdOff) →
+      ICal.lastLE S x = some (off + (dstOff - stdOff)))
+    (hx1 : on ≤ t + stdOff) (hx2 : t + dstOff < nextOn) :
+    let g := (ICal.generic [{ tzoffsetfrom := dstOff, tzoffsetto := stdOff, isdst := false, onsets := S : ICal.ZComp },
+                            { tzoffsetfrom := stdOff, tzoffsetto := dstOff, isdst := true, onsets := D : ICal.ZComp }])
+    g.utcoffset (g.fromutc t).1 (g.fromutc t).2 = (g.fromutc t).1 - t ∧
+    (g.fromutc t).1 = (if t + stdOff < off then t + dstOff else t + stdOff) :=
+  ICal.roundtrip_two_comp S D stdOff dstOff on off nextOn t hsav h1 h2 H1 H2 H3 hx1 hx2
+
 /-! non-vacuity -/
 def exR : Raw := { trans := [(1000000, 1), (2000000, 0), (3000000, 1)],
                    types := [⟨0, 0, [65], false, false, 0⟩, ⟨3600, 1, [66], false, false, 0⟩] }
 example : Spec.wf exR = true := by decide
 example : fromutc (build exR) 2000100 = .ok ⟨2000100, true⟩ ∧ fromutc (build exR) 1996500 = .ok ⟨2000100, false⟩ := by decide
+/-- a southern-hemisphere rule (AEST-10AEDT 2020, `off < on`): hypotheses of `roundtrip_range` hold on
+    1 January although DST is in force across the year boundary -/
+def aestZone : RangeZone :=
+  RangeZone.ofTable 36000 39600 true [(2019, 1570327200, 1554602400), (2020, 1601776800, 1586052000)]
+example : aestZone.transitions (yearOf 1577800000) = some (1570327200, 1554602400) ∧ yearOf 1577800000 = 2019 ∧
+    yearOf (1577800000 + 39600) = 2020 := by decide
 /-- a northern-hemisphere rule in 2020 (EST5EDT): hypotheses of `roundtrip_range_partial` are satisfiable -/
 def estZone : RangeZone := RangeZone.ofTable (-18000) (-14400) true [(2020, 1583632800, 1604192400)]
 example : yearOf 1604210000 = 2020 ∧ estZone.transitions (yearOf 1604210000) = some (1583632800, 1604192400) ∧
